@@ -326,6 +326,7 @@ void run_idle_sweep(Judge& j, uint64_t nbase, int max_idle, const std::vector<in
     const FamilyCtx& ctx = j.ctx;
     uint64_t idx = 0;
     Knobs k; k.pubs_max = 6; k.suffix = 12 * SEC; k.span = 1 * SEC; k.faults_max = 1; k.bad_attempts_max = 1; k.big_payload_pct = 0;
+    k.rm_choices = {0, 0, 1, 2, 5, 10, 65535};
     for (uint64_t bi = 0; bi < nbase; ++bi) {
         vu::Rng rng(ctx.seed * 31337 + bi * 104729);
         Scenario base = gen_mix(rng, k, "idle-base");
@@ -374,6 +375,13 @@ void run_idle_sweep(Judge& j, uint64_t nbase, int max_idle, const std::vector<in
                         case 7: {   // subscribe and the terminal action in the same turn, from inside a handler
                             a.kind = Action::subscribe; a.subs = {{"turn/+", 1}}; a.in_handler = true;
                             Action c; c.kind = Action::cancel; c.chained = true; extra.push_back(c);
+                            break;
+                        }
+                        case 9: {   // several requests and async_disconnect in one turn: the DISCONNECT is queued behind sendable packets
+                            a.kind = Action::subscribe; a.subs = {{"q/+", 1}};
+                            Action p0; p0.kind = Action::publish; p0.qos = 0; p0.topic = "q0"; p0.payload = "x"; p0.chained = true; extra.push_back(p0);
+                            Action p1; p1.kind = Action::publish; p1.qos = 1; p1.topic = "q1"; p1.payload = "x"; p1.chained = true; extra.push_back(p1);
+                            Action d; d.kind = Action::disconnect; d.rc = rng.chance(1, 2) ? 0 : 4; d.chained = true; extra.push_back(d);
                             break;
                         }
                         case 8: {   // terminal action, then requests on the closed client (some from inside a handler), then a new run
@@ -989,7 +997,7 @@ int run_families(const FamilyCtx& ctx, vu::Result& res) {
         run_mix(j, k, "c08-mix", T ? 100000 : 2000);
         run_exhaustion(j);
     } else if (P == "C09") {
-        run_idle_sweep(j, T ? 60 : 8, T ? 200 : 90, {1, 5}, T ? 400 : 120, {1, 5});
+        run_idle_sweep(j, T ? 60 : 8, T ? 200 : 90, {1, 5, 9}, T ? 400 : 120, {1, 5, 9});
     } else if (P == "C10") {
         run_c10(j, T ? 150000 : 3000);
     } else if (P == "C11") {
